@@ -437,6 +437,24 @@ func intrinsics() map[string]intrinsic {
 	}
 	m["reflect.PtrTo"] = ptrTo
 	m["reflect.PointerTo"] = ptrTo
+	m["internal/reflectlite.TypeOf"] = func(st *State, fn *ssa.Function, args []Value) Value {
+		iv := args[0].(Agg)
+		dyn := st.dynType(iv, nil)
+		if dyn == nil {
+			return Agg{st.zero64, st.zero64}
+		}
+		rp := st.w.P.Prog.ImportedPackage("internal/reflectlite")
+		if rp == nil {
+			st.end("UNSUPPORTED", "reflectlite not loaded")
+		}
+		iface := rp.Type("Type").Type()
+		rt := types.NewPointer(rp.Type("rtype").Type())
+		return Agg{st.c.Const(st.w.itabFor(iface, rt), 64), st.c.Const(st.w.tokenFor(dyn), 64)}
+	}
+	m["(internal/reflectlite.rtype).Comparable"] = func(st *State, fn *ssa.Function, args []Value) Value {
+		return st.c.Bool(types.Comparable(st.tokenType(args[0])))
+	}
+	m["(*internal/reflectlite.rtype).Comparable"] = m["(internal/reflectlite.rtype).Comparable"]
 	// ---- reflect.Value mini-model: (type token, data word, flag) -- only what
 	// interfaceDecoder.Decode and the marshaler plumbing use
 	m["reflect.ValueOf"] = func(st *State, fn *ssa.Function, args []Value) Value {
@@ -468,6 +486,74 @@ func intrinsics() map[string]intrinsic {
 			}
 		}
 		return st.c.Const(uint64(n), 64)
+	}
+	m["(reflect.Value).CanAddr"] = func(st *State, fn *ssa.Function, args []Value) Value {
+		return st.c.BNot(st.c.Eq(tm(args[0].(Agg)[2]), st.zero64))
+	}
+	m["(reflect.Value).Addr"] = func(st *State, fn *ssa.Function, args []Value) Value {
+		a := args[0].(Agg)
+		t := valType(st, args[0])
+		if f := tm(a[2]); f.IsConst() && f.V == 0 {
+			st.end("PANIC", "reflect.Value.Addr of unaddressable value")
+		}
+		return Agg{st.c.Const(st.w.tokenFor(types.NewPointer(t)), 64), a[2], st.zero64}
+	}
+	m["reflect.New"] = func(st *State, fn *ssa.Function, args []Value) Value {
+		t := st.tokenType(args[0].(Agg)[1])
+		p := st.alloc(int(st.tc.of(t).size), "reflect.New:"+t.String())
+		return Agg{st.c.Const(st.w.tokenFor(types.NewPointer(t)), 64), p, st.zero64}
+	}
+	m["(reflect.Value).Elem"] = func(st *State, fn *ssa.Function, args []Value) Value {
+		a := args[0].(Agg)
+		t := valType(st, args[0])
+		switch u := t.Underlying().(type) {
+		case *types.Pointer:
+			p := tm(a[1])
+			if p.IsConst() && p.V == 0 {
+				return Agg{st.zero64, st.zero64, st.zero64}
+			}
+			et := u.Elem()
+			if pointerShaped(et) {
+				return Agg{st.c.Const(st.w.tokenFor(et), 64), st.loadWord(p), p}
+			}
+			return Agg{st.c.Const(st.w.tokenFor(et), 64), p, p}
+		case *types.Interface:
+			inner := st.loadT(tm(a[1]), t).(Agg)
+			dyn := st.dynType(inner, t)
+			if dyn == nil {
+				return Agg{st.zero64, st.zero64, st.zero64}
+			}
+			return Agg{st.c.Const(st.w.tokenFor(dyn), 64), inner[1], st.zero64}
+		}
+		st.end("PANIC", "reflect: call of reflect.Value.Elem on %s Value", t)
+		return nil
+	}
+	m["(reflect.Value).Set"] = func(st *State, fn *ssa.Function, args []Value) Value {
+		dst, src := args[0].(Agg), args[1].(Agg)
+		t := valType(st, args[0])
+		addr := tm(dst[2])
+		if addr.IsConst() && addr.V == 0 {
+			st.end("PANIC", "reflect.Value.Set using unaddressable value")
+		}
+		if pointerShaped(t) {
+			st.storeWord(addr, tm(src[1]))
+		} else if n := int(st.tc.of(t).size); n > 0 {
+			st.storeBytes(addr, st.loadBytes(tm(src[1]), n))
+		}
+		return nil
+	}
+	m["(reflect.Value).IsNil"] = func(st *State, fn *ssa.Function, args []Value) Value {
+		a := args[0].(Agg)
+		t := valType(st, args[0])
+		if pointerShaped(t) {
+			return st.c.Eq(tm(a[1]), st.zero64)
+		}
+		switch t.Underlying().(type) {
+		case *types.Slice, *types.Interface:
+			return st.c.Eq(st.loadWord(tm(a[1])), st.zero64)
+		}
+		st.end("PANIC", "reflect: call of reflect.Value.IsNil on %s Value", t)
+		return nil
 	}
 	m["(reflect.Value).CanInterface"] = func(st *State, fn *ssa.Function, args []Value) Value { return st.c.True }
 	m["(reflect.Value).IsValid"] = func(st *State, fn *ssa.Function, args []Value) Value {
@@ -515,6 +601,68 @@ func intrinsics() map[string]intrinsic {
 		st.mapUpdate(args[1], args[2], slotRef{slot}, nil)
 		return slot
 	}
+	// ---- runtime map iteration linknames used by the encoder VM
+	ep := "github.com/goccy/go-json/internal/encoder."
+	m[ep+"MapLen"] = func(st *State, fn *ssa.Function, args []Value) Value {
+		mo := st.mapObj(args[0], false)
+		if mo == nil {
+			return st.zero64
+		}
+		return st.c.Const(uint64(len(mo.keys)), 64)
+	}
+	m[ep+"MapIterInit"] = func(st *State, fn *ssa.Function, args []Value) Value {
+		it := tm(args[2])
+		if !it.IsConst() {
+			st.end("UNSUPPORTED", "symbolic map iterator address")
+		}
+		mo := st.mapObj(args[1], false)
+		mi := &mapIterState{}
+		if mo != nil {
+			for i := range mo.keys {
+				kp := st.alloc(int(st.tc.of(mo.ktyp).size), "mapiter-key")
+				st.storeT(kp, mo.ktyp, mo.keys[i])
+				var vp *smt.Term
+				if sr, ok := mo.vals[i].(slotRef); ok {
+					vp = sr.addr
+				} else {
+					vp = st.alloc(int(st.tc.of(mo.vtyp).size), "mapiter-val")
+					st.storeT(vp, mo.vtyp, mo.vals[i])
+				}
+				mi.keys = append(mi.keys, kp)
+				mi.vals = append(mi.vals, vp)
+			}
+		}
+		if st.mapIters == nil {
+			st.mapIters = map[uint64]*mapIterState{}
+		}
+		st.mapIters[it.V] = mi
+		return nil
+	}
+	iterOf := func(st *State, v Value) *mapIterState {
+		it := tm(v)
+		if !it.IsConst() || st.mapIters[it.V] == nil {
+			st.end("UNSUPPORTED", "map iterator not initialised")
+		}
+		return st.mapIters[it.V]
+	}
+	m[ep+"MapIterKey"] = func(st *State, fn *ssa.Function, args []Value) Value {
+		mi := iterOf(st, args[0])
+		if mi.pos >= len(mi.keys) {
+			return st.zero64
+		}
+		return mi.keys[mi.pos]
+	}
+	m[ep+"MapIterValue"] = func(st *State, fn *ssa.Function, args []Value) Value {
+		mi := iterOf(st, args[0])
+		if mi.pos >= len(mi.vals) {
+			return st.zero64
+		}
+		return mi.vals[mi.pos]
+	}
+	m[ep+"MapIterNext"] = func(st *State, fn *ssa.Function, args []Value) Value {
+		iterOf(st, args[0]).pos++
+		return nil
+	}
 	// ---- strconv.ParseFloat: acceptance from the real strconv.readFloat, value uninterpreted
 	m["strconv.ParseFloat"] = func(st *State, fn *ssa.Function, args []Value) Value {
 		sv := args[0].(Agg)
@@ -554,6 +702,11 @@ func intrinsics() map[string]intrinsic {
 }
 
 type slotRef struct{ addr *smt.Term }
+
+type mapIterState struct {
+	keys, vals []*smt.Term
+	pos        int
+}
 
 var opaqueReflectType = types.NewNamed(types.NewTypeName(0, nil, "opaqueReflectType", nil), types.NewPointer(types.NewStruct(nil, nil)), nil)
 
